@@ -204,13 +204,21 @@ func runReentrant(rc *RunCtx) {
 	for w := 0; w < nWriters; w++ {
 		w := w
 		k := 1 + tp.Choose(4, "writerops")
+		wkind := tp.Choose(4, "writerkind")
 		sim.Spawn(fmt.Sprintf("writer%d", w), func() {
 			for i := 0; i < k; i++ {
 				simrt.Yield("writer:step")
-				if (i+w)%2 == 0 {
+				switch (i + w + wkind) % 4 {
+				case 0:
 					broker.RegisterNode(el.NodeID(fmt.Sprintf("w%d", w)), mk("w", el.NodeTypeFilter))
-				} else {
-					broker.SetSuccessThreshold("tc", i)
+				case 1:
+					// the event types that are in flight, with a value that changes no outcome
+					broker.SetSuccessThreshold(el.EventType([]string{"ta", "tb", "tc"}[(i+w)%3]), 0)
+				case 2:
+					broker.SetSuccessThresholdSinks(el.EventType([]string{"ta", "tb"}[(i+w)%2]), 0)
+				default:
+					broker.IsAnyPipelineRegistered("ta")
+					broker.SuccessThreshold("ta")
 				}
 			}
 			writersDone++
